@@ -646,7 +646,7 @@ Lemma match_comment_detail r h w0 w1 toff tlen n :
   match_comment r = Some (MkComment h w0 w1 toff tlen n) ->
   1 <= h /\ firstn (1 + h) r = 123%N :: repeat 35%N h /\
   firstn (h + 1) (skipn (n - (h + 1)) r) = repeat 35%N h ++ [125%N] /\
-  2 <= toff /\ toff + tlen + 2 <= n /\ n <= length r.
+  2 <= toff /\ toff + tlen + 2 <= n /\ n <= length r /\ 2 * h + 2 <= n.
 Proof.
   unfold match_comment. destruct r as [|c r1]; [discriminate|].
   destruct (N.eqb c 123) eqn:Ec; [|discriminate]. apply N.eqb_eq in Ec. subst c.
